@@ -276,7 +276,51 @@ def rule_in(ctx):
     rep.floor('prefetch selection sites', n_true, 2)
 
 
+T6_TABLE = {
+    ('BatchDataset', '__getitem__'): 'IndexError marks the end of the input inside the last batch window '
+                                     '(re-raised for the first element and under drop_last; C02.BL checks the shape)',
+    ('CatchExceptionDataset', '__iter__'): 'the catch stage itself (rules T1-T5)',
+    ('ProfilingDataset', '__iter__'): 'counts and re-raises (C20.CN)',
+    ('ProfilingDataset', '__getitem__'): 'counts and re-raises (C20.CN)',
+    ('ItemsDataset', '__iter__'): 'converts the internal items signal into ItemsNotDefined (raises)',
+}
+
+
+def rule_t6(ctx):
+    """exceptions raised by upstream examples propagate unchanged through every other stage: no try around an
+    upstream lookup / iteration has a handler that can complete normally"""
+    rep = ctx.report
+    n = 0
+    for cls in K.family(ctx):
+        for mname in ('__getitem__', '__iter__'):
+            mem = cls.own(mname)
+            if mem is None or not mem.is_function:
+                continue
+            fn = mem.node
+            _l, fctx = ctx.effects.local_effects(fn, cls, cls.module)
+            for t in [x for x in A.walk_local(fn) if isinstance(x, ast.Try) and x.handlers]:
+                touches = [x for s in t.body for x in ast.walk(s) if (
+                    isinstance(x, ast.Subscript) and fctx.kind(x.value) in ('DS',)) or (
+                    isinstance(x, ast.Call) and A.dotted(x.func) == 'next') or (
+                    isinstance(x, (ast.For, ast.YieldFrom)) and fctx.kind(x.iter if isinstance(x, ast.For) else x.value) in ('DS', 'ITER'))]
+                if not touches:
+                    continue
+                n += 1
+                swallowing = [h for h in t.handlers if not (h.body and isinstance(h.body[-1], ast.Raise))]
+                if (cls.name, mname) in T6_TABLE:
+                    rep.ob('T6', K.key(cls, mname, 'handler-around-upstream-lookup-tabled'), True, t,
+                           T6_TABLE[(cls.name, mname)], nontrivial=False)
+                    continue
+                rep.ob('T6', K.key(cls, mname, 'upstream-exceptions-propagate'), not swallowing, swallowing[0] if swallowing else t,
+                       '' if not swallowing else 'a handler for %s around the upstream lookup `%s` completes normally: an '
+                       'exception of that type raised while evaluating an example (user map function, deeper stage) is '
+                       'swallowed or answered with another example instead of reaching catch()/the caller at its position' % (
+                           A.short(swallowing[0].type) if swallowing[0].type is not None else 'everything', A.short(touches[0], 40)))
+    rep.floor('try blocks around upstream lookups', n, 3)
+
+
 def run(ctx):
+    rule_t6(ctx)
     rule_catch(ctx)
     rule_fp(ctx)
     rule_in(ctx)
